@@ -1,7 +1,7 @@
 """C17 - plot appearance options are honoured in the produced figure (the chain, not the pixels)."""
 import ast
 
-from .. import form, q, trace
+from .. import arrays, form, q, trace
 from ..form import Rat
 from ..core import AnalysisError, const, dotted, norm, calls_in, call_name, parent_map
 from . import c13
@@ -311,6 +311,124 @@ def check_limit_order(ctx):
                msg="set_%sticks is called after set_%slim: a tick outside the requested limits widens the axis again and -%slim is not honoured" % (a, a, a))
 
 
+_WRAP = ("nparray", "call:numpy.array", "call:numpy.asarray", "float", "call:numpy.asanyarray", "pylist", "call:list")
+
+
+def _chain(v, roots):
+    """(root parameter, [index keys]) of a value read out of a parameter through subscripts (element-wise wrappers skipped)."""
+    from ..form import Rat
+    idx = []
+    while isinstance(v, Rat):
+        at = v.as_atom()
+        if at is None:
+            return None
+        if at.func in _WRAP and at.args and isinstance(at.args[0], Rat):
+            v = at.args[0]
+            continue
+        if at.func == "getitem" and len(at.args) == 2:
+            idx.append(arrays._ikey(at.args[1]))
+            v = at.args[0]
+            continue
+        if at.func.startswith("$") and at.func[1:] in roots:
+            idx.reverse()
+            return at.func[1:], idx
+        return None
+    return None
+
+
+def _expr_chains(at, roots):
+    """Subscript chains rooted at a parameter inside an opaque 'expr:<python text>' atom (placeholders _vN stand for the argument values)."""
+    import ast as _ast
+    out = []
+    try:
+        tree = _ast.parse(at.func[5:], mode="eval")
+    except SyntaxError:
+        return None
+    vals = {"_v%d" % i: a for i, a in enumerate(at.args)}
+
+    def key_of(n):
+        if isinstance(n, _ast.Name) and n.id in vals:
+            return arrays._ikey(vals[n.id])
+        if isinstance(n, _ast.Constant):
+            return "str:%r()" % n.value if isinstance(n.value, str) else repr(n.value)
+        return "expr:" + _ast.dump(n)
+    for n in _ast.walk(tree):
+        if isinstance(n, _ast.Subscript):
+            idx, b = [], n
+            while isinstance(b, _ast.Subscript):
+                idx.append(key_of(b.slice))
+                b = b.value
+            if isinstance(b, _ast.Name) and b.id in vals:
+                c = _chain(vals[b.id], roots)
+                if c is not None:
+                    idx.reverse()
+                    out.append((c[0], c[1] + idx, n))
+    # keep maximal chains only (a[k][i] also contains a[k])
+    inner = set()
+    for _, _, n in out:
+        b = n.value
+        while isinstance(b, _ast.Subscript):
+            inner.add(id(b))
+            b = b.value
+    return [(r, ix) for r, ix, n in out if id(n) not in inner]
+
+
+def check_annotation_index(ctx):
+    """C17.6: Output._add_annotation(x, y, labels) writes, at point (x[i], y[i]), the label of the same i: the subscript chains
+    that lead from the parameters x and y to the coordinates of a text and from x / y / labels to the pieces of its string are the
+    same (the dictionary key of labels aside).  A point list that is filtered or re-ordered before the loop must take the labels
+    with it; read off the folded function, helpers inlined, whatever the loops and tests are called."""
+    from .. import plotargs, symeval, q as q_
+    from ..form import Rat
+    prog = ctx.prog
+    site = "verif.output.Output._add_annotation"
+    m = prog.module("verif.output")
+    c = prog.cls("verif.output.Output")
+    try:
+        calls, ev = plotargs.draw_calls(prog, c, method="_add_annotation", merge=False)
+    except symeval.Undecided as e:
+        raise AnalysisError("C17.6: %s is outside the analysable fragment: %s" % (site, e))
+    texts = [k for k in calls if k["kind"] == "text" and len(k["args"]) >= 3]
+    ctx.need(texts, "C17.6: no text call found in %s" % site)
+    roots = ("x", "y", "labels")
+    n = 0
+    for k in texts:
+        cx, cy = _chain(k["args"][0], roots), _chain(k["args"][1], roots)
+        if cx is None or cy is None:
+            raise AnalysisError("C17.6: the position of an annotation is not an element of the parameters x / y: (%s, %s)" % (str(k["args"][0])[:80], str(k["args"][1])[:80]))
+        ok = cx[0] == "x" and cy[0] == "y" and cx[1] == cy[1] and len(cx[1]) >= 1
+        n += 1
+        ctx.ob("C17.6", site, ok, "an annotation is placed at (x[i], y[i]) of one and the same i", loc=prog.loc(m, k["node"]),
+               msg="annotation placed at x%s, y%s" % (cx[1], cy[1]))
+        lab = k["args"][2]
+        reads = []
+        if isinstance(lab, Rat):
+            for at in q_.atoms(lab):
+                if at.func == "getitem":
+                    ch = _chain(Rat.of_atom(at), roots)
+                    if ch is not None:
+                        reads.append((ch[0], ch[1], at))
+                elif at.func.startswith("expr:"):
+                    ec = _expr_chains(at, roots)
+                    if ec is None:
+                        raise AnalysisError("C17.6: label expression not understood: %s" % at.func[:80])
+                    reads.extend((r, ix, None) for r, ix in ec)
+        # maximal reads only
+        keys = [(r, tuple(ix)) for r, ix, _ in reads]
+        maximal = [(r, ix) for (r, ix) in set(keys) if not any(r == r2 and len(ix2) > len(ix) and ix2[:len(ix)] == ix for (r2, ix2) in keys)]
+        bad = []
+        for r, ix in maximal:
+            pos = list(ix)
+            if r == "labels" and len(pos) == len(cx[1]) + 1:
+                pos = pos[1:]                       # the dictionary key (score / key / a name of -af)
+            if pos != cx[1]:
+                bad.append("%s%s" % (r, list(ix)))
+        n += 1
+        ctx.ob("C17.6", site, not bad, "the label of an annotation is read at the index chain of its position (labels[k][i] / labels[i] / x[i], y[i])",
+               loc=prog.loc(m, k["node"]), msg="annotation at x%s is labelled from %s: after a selection or re-ordering of the points the text of another point is shown" % (cx[1], ", ".join(sorted(bad))))
+    ctx.floor("C17.6", 2)
+
+
 def run(ctx):
     ctx.rule("C17.1", "appearance option -> driver variable -> attribute initialised and READ -> matplotlib call/keyword")
     ctx.rule("C17.5", "axis limits are applied after the tick positions of the same axis")
@@ -324,6 +442,8 @@ def run(ctx):
     ctx.rule("C17.4", "metric attributes that may be 0 or None (perfect_score, min, max) are never tested by truthiness")
     check_tight_crop(ctx)
     check_zero_or_none(ctx)
+    ctx.rule("C17.6", "annotations: the text written at (x[i], y[i]) is built from labels / x / y at the same index chain")
+    check_annotation_index(ctx)
     ctx.floor("C17.1", 250)
 
 
